@@ -27,6 +27,7 @@ type Obligation struct {
 	Note   string
 	Trivial bool
 	Pos    string
+	FreshDefs  map[string]*FreshDef
 	group      *GroupSpec
 	knownClass *KnownFinding
 	excluded   []*KnownFinding
@@ -297,7 +298,7 @@ func (e *Exec) observeString(st *State, v Value) string {
 
 
 func (e *Exec) addObligation(st *State, kind, label string, goal *Term) {
-	ob := &Obligation{Harness: curHarnessOf(e), Label: label, Kind: kind, Goal: goal}
+	ob := &Obligation{Harness: curHarnessOf(e), Label: label, Kind: kind, Goal: goal, FreshDefs: e.FreshDefs}
 	ob.PC = append([]*Term{}, st.PC...)
 	switch kind {
 	case "assert":
